@@ -4,21 +4,26 @@
 
    Backends  (Model/Backend.v; key mapping, listing Prefix, prefix stripping, constructor prefix and
              not-found codes are Gen/GenS3.v, regenerated from storage_backend.py on every run):
-     for EVERY sequence of operations (write/read/exists/list/delete/size/mtime) over canonical keys --
+     for EVERY sequence of operations (write/read/exists/list/delete/size/mtime, open_file, and
+     open_seekable followed by ANY seek/read program on the reader it returned) over canonical keys --
      no bound on its length or on the number or shape of keys -- the S3 backend over a strongly
      consistent bucket and the local backend produce the observations of the abstract store:
      contents, existence of exact keys, table-relative listings confined to the named directory,
      sizes, not-found errors.  For S3: under EVERY configured prefix (as passed to the constructor) and
      in the presence of ANY other objects in the bucket outside the table's root.  For local: when no
      key is a directory of another key (a file system cannot hold both "a" and "a/b" as files).
-   Range reader (Model/Range.v): for EVERY content and EVERY seek/read program the reader returns the
+     open_seekable after ANY history answers from the key's CURRENT content (C20_open_after_history), and every
+     ranged GET any open issues names an object that exists, within its size (C20_open_ranges_in_objects);
+     open_seekable's wiring (which key the reader reads, whose size it is given) is Gen/GenRange.v.
+   Range reader (Model/Range.v over Gen/GenRange.v: the seek / readinto / readall integer kernels are REGENERATED
+     from S3RangeFile on every run): for EVERY content and EVERY seek/read program the reader returns the
      bytes and positions of a plain file, a negative target is an error, every Range it sends satisfies
      0 <= first <= last < size, at most one request per read.
    Retry (Model/Retry.v; budget and permanent codes from Gen/GenS3.v): transients within the budget are
      masked, a permanent / non-retryable error surfaces at once, max+1 transients raise after exactly
      max+1 attempts, a returned value or raised error is always the operation's own last outcome. *)
 From Coq Require Import List Bool Ascii String Arith ZArith QArith Lia.
-Require Import DS.Model.Str DS.Gen.GenS3 DS.Model.Backend DS.Model.Range DS.Model.Retry DS.Model.Paged.
+Require Import DS.Model.Str DS.Gen.GenS3 DS.Gen.GenRange DS.Model.Backend DS.Model.BackendTrace DS.Model.Range DS.Model.Retry DS.Model.Paged.
 Require Import DS.Proofs.BackendProofs DS.Proofs.RangeProofs DS.Proofs.RetryProofs DS.Proofs.PagedProofs.
 Import ListNotations.
 Open Scope nat_scope.
@@ -51,6 +56,24 @@ Theorem C20_leading_slash_same : forall (pfx : str) (b : bucket) (s : lstate) (n
 Proof. exact leading_slash_same. Qed.
 Print Assumptions C20_leading_slash_same.
 
+(* open_seekable(k) on the S3 backend after ANY history on it -- writes, overwrites, deletes, earlier opens of the
+   same or other keys, in any order and number: the program sees exactly what it would see on a plain file holding
+   the content k has NOW, and the call raises FileNotFoundError exactly when k holds nothing now *)
+Theorem C20_open_after_history : forall (raw_prefix : str) (F : bucket) (ops : list (op key)) (k : key) (prog : list rop),
+  foreign_ok (gen_init_prefix raw_prefix) F -> Forall wf_op ops -> wf_key k -> Forall wf_rop prog ->
+  run_s3 raw_prefix F (ops ++ [Open k prog]) =
+  run_spec ops ++ [match lookup key_eqb k (spec_store ops) with Some v => file_obs v prog | None => OErr NotFound end].
+Proof. exact open_after_history. Qed.
+Print Assumptions C20_open_after_history.
+
+(* "requesting only in-range bytes", inside histories: every ranged GET issued by any open_seekable reader of any
+   history names an object that exists in the bucket at that moment and lies within its size *)
+Theorem C20_open_ranges_in_objects : forall (page : nat) (raw_prefix : str) (F : bucket) (ops : list (op key)),
+  foreign_ok (gen_init_prefix raw_prefix) F -> Forall wf_op ops ->
+  ranges_in_objects page (gen_init_prefix raw_prefix) F (map (map_op join) ops).
+Proof. exact ranges_in_objects_all. Qed.
+Print Assumptions C20_open_ranges_in_objects.
+
 (* ------------------------------------------------------------------ range reader *)
 Theorem C20_range_equiv : forall (A : Type) (content : list A) (prog : list rop), Forall wf_rop prog ->
   let '(obs, final, ranges) := run_rf content 0 prog in
@@ -65,6 +88,12 @@ Theorem C20_range_negative_seek : forall (A : Type) (content : list A) (pos off 
   rf_step content pos (Seek off w) = (pos, RErr, []).
 Proof. exact @seek_negative_errs. Qed.
 Print Assumptions C20_range_negative_seek.
+
+(* a whence that is none of SEEK_SET / SEEK_CUR / SEEK_END is refused by the regenerated seek, whatever its value *)
+Theorem C20_seek_invalid_whence : forall (pos size off c : Z), c <> 0%Z -> c <> 1%Z -> c <> 2%Z ->
+  gen_rf_seek pos size off c = None.
+Proof. exact seek_invalid_whence. Qed.
+Print Assumptions C20_seek_invalid_whence.
 
 (* ------------------------------------------------------------------ retry *)
 Theorem C20_retry_masks : forall (V E : Type) (max : nat) (es : list E) (v : V) (rest : list (outcome V E)),
@@ -153,7 +182,10 @@ Definition ex_ops : list (op key) :=
   [ Write (k "data/x") (lit "abc"); Write (k "data2/x") (lit "de"); Write (k "database") (lit "f");
     Write (k "metadata/v1.metadata.json") (lit "{}"); Write (k "metadata.version-hint.text") (lit "1");
     ListDir (k "data"); ListDir (k "metadata"); ListDir (k "dat"); Exists (k "data/x"); Exists (k "data/y");
-    Size (k "data2/x"); Delete (k "data2/x"); Read (k "data2/x"); ListDir (k ""); Read (k "data/x") ].
+    Size (k "data2/x"); Delete (k "data2/x"); Read (k "data2/x"); ListDir (k ""); Read (k "data/x");
+    Open (k "data/x") [Seek (-2) SeekEnd; ReadInto 5; Seek (-9) SeekCur; Tell];
+    Open (k "data2/x") [ReadAll];                                  (* deleted above *)
+    Write (k "data/x") (lit "z"); Open (k "data/x") [Seek 0 SeekEnd; Seek 0 SeekSet; ReadAll]; Stream (k "database") ].
 
 Example C20_nonvacuous :
   foreign_ok (gen_init_prefix (lit "wh/t1/")) ex_F
@@ -164,7 +196,9 @@ Example C20_nonvacuous :
        OList [lit "data/x"]; OList [lit "metadata/v1.metadata.json"]; OList []; OBool true; OBool false;
        OSize 2%Z; OUnit; OErr NotFound;
        OList [lit "data/x"; lit "database"; lit "metadata/v1.metadata.json"; lit "metadata.version-hint.text"];
-       OBytes (lit "abc") ]
+       OBytes (lit "abc");
+       OOpened [RPos 1; RData (lit "bc"); RErr; RPos 3] 3; OErr NotFound;
+       OUnit; OOpened [RPos 1; RPos 0; RData (lit "z")] 1; OBytes (lit "f") ]
   /\ run_local ex_ops = run_s3 (lit "wh/t1/") ex_F ex_ops.
 Proof.
   split; [apply foreign_okb_sound; vm_compute; reflexivity|].
@@ -172,6 +206,17 @@ Proof.
   split; [apply prefix_freeb_sound; vm_compute; reflexivity|].
   split; vm_compute; reflexivity.
 Qed.
+
+(* the requests of write -> open_seekable+program -> delete -> open_seekable under prefix "wh/t1": one HEAD and one
+   ranged GET (bytes 1-2 of the 3-byte object) for the first open; for the open after the delete only get_size's
+   HEADs (the FileNotFoundError is retried max_retries times) and NO ranged GET *)
+Example C20_nonvacuous_open_requests :
+  run_trace 2 (gen_init_prefix (lit "wh/t1")) ex_F
+    (map (map_op join) [Write (k "data/x") (lit "abc"); Open (k "data/x") [Seek (-2) SeekEnd; ReadInto 5];
+                        Delete (k "data/x"); Open (k "data/x") [ReadAll]])
+  = [ [RPut (lit "wh/t1/data/x")]; [RHead (lit "wh/t1/data/x"); RGetR (lit "wh/t1/data/x") 1 2];
+      [RDelete (lit "wh/t1/data/x")]; repeat (RHead (lit "wh/t1/data/x")) (S gen_max_retries) ].
+Proof. vm_compute. reflexivity. Qed.
 
 (* a range program and a retry script inside the theorems' domains, with their concrete results *)
 Example C20_nonvacuous_range :
